@@ -176,9 +176,23 @@ func (c *Conn) Closed() bool { c.mu.Lock(); defer c.mu.Unlock(); return c.closed
 // Output returns a copy of everything the server wrote so far.
 func (c *Conn) Output() []byte { c.mu.Lock(); defer c.mu.Unlock(); return append([]byte{}, c.out...) }
 
+// Patience is the floor of every wall-clock wait of the harness.  "Did not answer" is the only
+// verdict that depends on real time, and it is only sound if the bound is far above anything a busy
+// machine can do to a microsecond operation: callers' shorter timeouts are raised to it.  Engines cap
+// the number of timeouts they pursue (each costs Patience) and report the cut.
+var Patience = 45 * time.Second
+
+func patient(d time.Duration) time.Duration {
+	if d < Patience {
+		return Patience
+	}
+	return d
+}
+
 // TakeReply waits until the server has written at least one complete RESP value (or the
 // connection is closed, or the timeout passes) and removes it from the output buffer.
 func (c *Conn) TakeReply(timeout time.Duration) (raw []byte, v model.Val, status string) {
+	timeout = patient(timeout)
 	deadline := time.Now().Add(timeout)
 	timer := time.AfterFunc(timeout, func() { c.mu.Lock(); c.cond.Broadcast(); c.mu.Unlock() })
 	defer timer.Stop()
@@ -233,6 +247,7 @@ func contains(s, sub string) bool {
 
 // WaitClosed waits until the server closed the connection.
 func (c *Conn) WaitClosed(timeout time.Duration) bool {
+	timeout = patient(timeout)
 	deadline := time.Now().Add(timeout)
 	timer := time.AfterFunc(timeout, func() { c.mu.Lock(); c.cond.Broadcast(); c.mu.Unlock() })
 	defer timer.Stop()
